@@ -26,6 +26,7 @@ def run(F, R, ctx):
     if "sync" in (F.meta.get("features") or []):
         world_lock_rule(F, R)
         parked_published_rule(F, R)
+        registry_rule(F, R)
 
 
 def _run(F, R, ctx):
@@ -262,3 +263,45 @@ def parked_published_rule(F, R):
                    "park_thread_while_paused (directly or in a helper): the thread keeps running while it is meant to be "
                    "paused, or parks invisibly" % v, fn.loc(fn.blocks[sb].get("line")), sample=True)
     R.floor("C16.e", "pausing states handled in the poll", narms, 2)
+
+
+def registry_rule(F, R, rid="C16.r"):
+    R.rule(rid, "a thread stays in the registry for as long as it can still park: stop_threads / resume_threads / enumerate_stacks "
+                "walk Synchronizer.threads, so a thread that can still reach a safepoint must be in it. The registry only "
+                "grows, or — where something shrinks it (retain / remove / swap_remove / drain / clear / pop / truncate on the "
+                "field) — what is dropped is decided by the liveness of the entry's context (Weak::upgrade / strong_count in "
+                "the predicate), never by identity with the running thread. nc: a thread that unregisters itself and then "
+                "finds the world stopped at its next safepoint exit parks, and resume_threads — walking the registry — never "
+                "unparks it; thread-join! on it hangs")
+    SHR = r"::(retain|retain_mut|remove|swap_remove|drain|clear|pop|truncate|split_off)$"
+    grows, n = 0, 0
+    for name, fn in sorted(F.fns.items()):
+        if not name.startswith("steel::"):
+            continue
+        acc = [i for i, _, e in fn.events("fld") if e[1] == "Synchronizer" and e[2] == "threads"]
+        if not acc:
+            continue
+        after = set()
+        for a in acc:
+            after |= fn.reachable_from([a])
+        for i, b in fn.calls():
+            if i not in after:
+                continue
+            if re.search(r"Vec<T,A>\}::push$", b["callee"]) and b["targs"] and "ThreadContext" in b["targs"][0]:
+                grows += 1
+            if re.search(SHR, b["callee"]) and b["targs"] and "ThreadContext" in b["targs"][0]:
+                n += 1
+                # the predicate: closures handed to the call, and the enclosing function
+                fam = [fn] + [F.fns[c] for c in F.fns if c.startswith(fn.name + "::{closure")]
+                live = any(re.search(r"Weak<T,A>\}::(upgrade|strong_count)$|Arc<T,A>\}::strong_count$|is_finished$", cb["callee"])
+                           for f2 in fam for _, cb in f2.calls())
+                ident = any(re.search(r"::ptr_eq$|current\(\)|ThreadId", cb["callee"]) for f2 in fam for _, cb in f2.calls())
+                R.inst(rid, "%s / %s on the thread registry drops only dead entries" % (fn.short(), lib.split_path(b["callee"])[-1]),
+                       live and not ident,
+                       "%s shrinks Synchronizer.threads (%s, line %s) by %s: an entry is dropped while its thread can still "
+                       "reach a safepoint; if the world is stopped at that moment the thread parks and is never resumed" % (
+                           fn.short(), lib.split_path(b["callee"])[-1], b["line"],
+                           "identity with a particular thread" if ident else "a predicate that does not test the context's liveness"),
+                       fn.loc(b["line"]), sample=True)
+    R.inst(rid, "the thread registry grows by registration only (%d push sites, %d shrinking sites)" % (grows, n), grows >= 2,
+           "no registration of a thread in Synchronizer.threads was found", "", sample={"push_sites": grows, "shrinking_sites": n})
